@@ -193,6 +193,25 @@ def c07(res):
                       "non-powers of two; affine and projective views; VM and JIT; pools; a case = one heightmap, every column compared")
 
 
+def c09(res):
+    wd = workdir("C09")
+    q = res.tier == "quick"
+    res.models.append(model_check("Par", "Par.cfg" if q else "Par_thorough.cfg", wd, workers=8, timeout=3000))
+    trace = os.path.join(wd, "trace.ndjson")
+    if not run_recorder(res, "par", [res.tier, trace], wd, timeout=3000):
+        return res.finish("recorder crashed")
+    n, rej = validate("Trace_C09", trace, wd, timeout=3000)
+    res.validated = n - len(rej)
+    res.evaluations = n
+    res.samples = sample_lines(trace, maxlen=3000)
+    res.add_rejects(trace, rej, lambda r, f: "kind=%s backend=%s threads=%s cancel_after=%s fails=%s" % (r.get("kind", r.get("ev")), r.get("backend"), r.get("threads"), r.get("cancel_after"), "+".join(sorted(f))))
+    res.assumptions = ["interleavings are perturbed through the schedule-point hook, not enumerated; the verdict never depends on timing",
+                       "the cancel token is set from inside the poll hook after exactly k polls"]
+    return res.finish("2D renders, voxel renders and meshes of random CSG with no pool, the global pool and custom pools of 1..16 threads; "
+                      "cancel before / after k polls / after all polls / never; one JIT tape shared by up to 16 threads; "
+                      "a case = one run")
+
+
 def c10(res):
     wd = workdir("C10")
     q = res.tier == "quick"
@@ -335,7 +354,7 @@ def c11(res):
                       "Function and Shape APIs; a case = one call")
 
 
-CHECKS = {"C01": c01, "C03": c03, "C05": c05, "C06": c06, "C07": c07, "C11": c11, "C02": c02, "C04": c04, "C10": c10, "C14": c14, "C15": c15, "C20": c20}
+CHECKS = {"C01": c01, "C03": c03, "C05": c05, "C06": c06, "C07": c07, "C09": c09, "C11": c11, "C02": c02, "C04": c04, "C10": c10, "C14": c14, "C15": c15, "C20": c20}
 
 
 def replay(prop, path):
